@@ -1269,16 +1269,18 @@ impl ArchiveBuilder {
                 flags |= BlockEntry::FLAG_SECTOR_CRC;
             }
 
-            // Reserve space for sector offset table and CRC table if enabled
-            let offset_table_size = (sector_count + 1) * 4;
-            let crc_table_size = if self.generate_crcs {
-                sector_count * 4
+            // Reserve space for the sector offset table. With sector checksums the
+            // table has one more entry: the checksums are stored as an additional
+            // sector behind the data sectors, delimited by the last two offsets.
+            let offset_count = if self.generate_crcs {
+                sector_count + 2
             } else {
-                0
+                sector_count + 1
             };
-            let data_start = offset_table_size + crc_table_size;
+            let offset_table_size = offset_count * 4;
+            let data_start = offset_table_size;
 
-            let mut sector_offsets = vec![0u32; sector_count + 1];
+            let mut sector_offsets = vec![0u32; offset_count];
             let mut sector_data = Vec::new();
             let mut sector_crcs = if self.generate_crcs {
                 Vec::with_capacity(sector_count)
@@ -1293,13 +1295,6 @@ impl ArchiveBuilder {
                 let sector_bytes = &file_data[sector_start..sector_end];
 
                 *offset = (data_start + sector_data.len()) as u32;
-
-                // Calculate CRC for uncompressed sector if enabled
-                if self.generate_crcs {
-                    // MPQ uses ADLER32 for sector checksums
-                    let crc = adler2::adler32_slice(sector_bytes);
-                    sector_crcs.push(crc);
-                }
 
                 // Compress sector if needed
                 let compressed_sector = if *compression != 0 && !sector_bytes.is_empty() {
@@ -1318,11 +1313,29 @@ impl ArchiveBuilder {
                     sector_bytes.to_vec()
                 };
 
+                // MPQ uses ADLER32 for sector checksums, taken over the sector as it
+                // is stored (after compression, before encryption)
+                if self.generate_crcs {
+                    sector_crcs.push(adler2::adler32_slice(&compressed_sector));
+                }
+
                 sector_data.extend_from_slice(&compressed_sector);
             }
 
             // Set last offset
             sector_offsets[sector_count] = (data_start + sector_data.len()) as u32;
+
+            // The checksum sector follows the data sectors; it is stored raw and is
+            // never encrypted
+            let crc_sector_size = if self.generate_crcs {
+                sector_count * 4
+            } else {
+                0
+            };
+            if self.generate_crcs {
+                sector_offsets[sector_count + 1] =
+                    (data_start + sector_data.len() + crc_sector_size) as u32;
+            }
 
             // Log CRC generation if enabled
             if self.generate_crcs {
@@ -1352,7 +1365,7 @@ impl ArchiveBuilder {
 
                 // Encrypt each sector using the original (unencrypted) offsets
                 let mut encrypted_sectors = Vec::new();
-                for (i, offset_pair) in original_offsets.windows(2).enumerate() {
+                for (i, offset_pair) in original_offsets[..=sector_count].windows(2).enumerate() {
                     let start = (offset_pair[0] - data_start as u32) as usize;
                     let end = (offset_pair[1] - data_start as u32) as usize;
 
@@ -1370,18 +1383,18 @@ impl ArchiveBuilder {
                 writer.write_u32_le(*offset)?;
             }
 
-            // Write CRC table if enabled
+            // Write sector data
+            writer.write_all(&sector_data)?;
+
+            // Write the checksum sector if enabled
             if self.generate_crcs {
                 for crc in &sector_crcs {
                     writer.write_u32_le(*crc)?;
                 }
             }
 
-            // Write sector data
-            writer.write_all(&sector_data)?;
-
-            // Return size NOT including CRC table (offset table + sector data only)
-            let total_size = offset_table_size + sector_data.len();
+            // The stored size covers the offset table, the data and the checksum sector
+            let total_size = offset_table_size + sector_data.len() + crc_sector_size;
             Ok((total_size, flags))
         }
     }
